@@ -8,7 +8,7 @@
     Results: [Ok], [Err class] (never message text), [Panic] (indexing an arena with a foreign or
     dangling identifier, "aliases should have been resolved", "mismatched stack"), [OutOfFuel]
     (the Rust code would loop/overflow: only possible on cyclic collections). *)
-From WacV Require Import Str Types.
+From WacV Require Import Str Types C07Flags.
 
 (** * Diagnostics classes *)
 Inductive desc :=
@@ -269,6 +269,12 @@ Definition limits_match (ai : N) (am : option N) (bi : N) (bm : option N) : bool
                  end.
 Definition opt_N_eqb (a b : option N) : bool :=
   match a, b with Some x, Some y => x =? y | None, None => true | _, _ => false end.
+(** [apsl != bpsl] on the two [Option<u32>]s -- or, once the repair of the known finding
+    "memory-default-page-size" is in the source, [apsl.unwrap_or(16) != bpsl.unwrap_or(16)].  Which of the two the
+    source currently contains is read from checker.rs on every run (gen/C07Flags.v). *)
+Definition psl_or_default (p : option N) : N := match p with Some x => x | None => 16 end.
+Definition page_size_eqb (a b : option N) : bool :=
+  if psl_default_normalised then psl_or_default a =? psl_or_default b else opt_N_eqb a b.
 Definition cdesc_of (c : coreextern) : cdesc :=
   match c with CEFunc _ => CDfunc | CETable _ _ _ _ _ => CDtable | CEMemory _ _ _ _ _ => CDmemory
              | CEGlobal _ _ _ => CDglobal | CETag _ => CDtag end.
@@ -285,7 +291,7 @@ Definition core_extern (k : variance) (a b : coreextern) : R unit :=
     if negb (Bool.eqb ash bsh) then Err EMemShared
     else if negb (Bool.eqb a64 b64) then Err EMem64
     else if negb (limits_match ai am bi bm) then Err EMemLimits
-    else if negb (opt_N_eqb ap bp) then Err EMemPage else ok
+    else if negb (page_size_eqb ap bp) then Err EMemPage else ok
   | CEGlobal av amut ash, CEGlobal bv bmut bsh =>
     if negb (Bool.eqb amut bmut) then Err EGlobalMut
     else if negb (coretype_eqb av bv) then Err EGlobalType
